@@ -42,6 +42,11 @@ func (t *Trie) Insert(word string) {
 			if char > t.max {
 				t.max = char
 			}
+		default:
+			if i == l-1 {
+				// Word is a prefix of an already inserted longer word: mark the existing node as a valid word.
+				t.children[char].valid = true
+			}
 		}
 		t = t.children[char]
 	}
